@@ -48,7 +48,7 @@ impl Prop for C01 {
         "C01"
     }
     fn rule(&self) -> &'static str {
-        "per seed: generated schemas (objects, interfaces incl. interface-implements-interface, inherited property pool, edges to objects/interfaces/ancestors/self with parameters) x 2 datasets (<= 6 vertices per concrete type, boundary integers in both representations, nulls, strings with regex metacharacters, duplicate neighbours) x ~10 type-directed queries (depth <= 4: plain/optional/fold/recurse edges, coercions, every filter operator with variable and tag operands incl. tags imported into (nested) folds and fold-count tags, count outputs/filters, edge parameters explicit and defaulted). Appended to these random worlds (after them in the one Rng stream, so they are unchanged): the DIRECTED tagged-regex worlds (quick 4, thorough 40; engine/tagged_regex.rs): schema I0 {id p s e0:[I0] e1:I0} / T0:I0 {e2:[T1]} / T1:I0, 2 datasets of 5..11 vertices whose tagged String property p comes in RUNS (length 1..3, in id order = start order) from a small pool of valid patterns that match some texts (a a.* ^b . \"\" b$ ^a ab), invalid patterns (( [a * \\) and null, biased to valid->invalid->valid alternation, texts s from a small pool; 8 queries, one per template: p @tag ... s @filter(op: regex|not_regex, value: [%tag]) with the filter on the same vertex / a neighbour / inside @optional / inside @fold (imported tag) / inside a nested fold, the tag on the root vertex / an inner vertex / inside an @optional scope (nonexistent-optional tag values), and the same tag used by two filters behind a variable filter and a coercion. These cases are tagged nt:tagged-regex-stream (whenever they executed; the regex table of each request lists every dataset string as a pattern, invalid ones as (<hex> 0)). Likewise appended: the DIRECTED recurse-from-strict-subtype worlds (same number; engine/recurse_subtype.rs; nt:recurse-from-strict-subtype): an edge e0 declared on interface I1 (implements I0) and inherited by T0 and T1, target = the super-interface I0 (implicit coercion to I1 at depth >= 2; every fourth world: target = I1 itself), @recurse(depth: 2|3) starting at a T0-typed vertex (entry point RT0, coercion ... on T0 from I1 / I0, inner vertex, inside @fold / @optional), data in which T0 vertices have T1 neighbours that have neighbours. Only queries accepted by the real frontend and by argument validation are executed; each (schema, dataset, query, args) is sent as (exec ...) [model = Interp over the rendered real IR] and (spec-exec ...) [model = declarative Spec over the generator's tree]. A case is non-trivial (nt:<feature>+rows) when the query uses at least one of fold / optional / recurse / tag / coercion AND the implementation returned at least one row on that dataset. Oracle here: implementation panics on accepted queries (keyed by panic site); the declarative comparison is done by ./check on the spec-exec answers."
+        "per seed: generated schemas (objects, interfaces incl. interface-implements-interface, inherited property pool, edges to objects/interfaces/ancestors/self with parameters) x 2 datasets (<= 6 vertices per concrete type, boundary integers in both representations, nulls, strings with regex metacharacters, duplicate neighbours) x ~10 type-directed queries (depth <= 4: plain/optional/fold/recurse edges, coercions, every filter operator with variable and tag operands incl. tags imported into (nested) folds and fold-count tags, count outputs/filters, edge parameters explicit and defaulted). Appended to these random worlds (after them in the one Rng stream, so they are unchanged): the DIRECTED tagged-regex worlds (quick 4, thorough 40; engine/tagged_regex.rs): schema I0 {id p s e0:[I0] e1:I0} / T0:I0 {e2:[T1]} / T1:I0, 2 datasets of 5..11 vertices whose tagged String property p comes in RUNS (length 1..3, in id order = start order) from a small pool of valid patterns that match some texts (a a.* ^b . \"\" b$ ^a ab), invalid patterns (( [a * \\) and null, biased to valid->invalid->valid alternation, texts s from a small pool; 8 queries, one per template: p @tag ... s @filter(op: regex|not_regex, value: [%tag]) with the filter on the same vertex / a neighbour / inside @optional / inside @fold (imported tag) / inside a nested fold, the tag on the root vertex / an inner vertex / inside an @optional scope (nonexistent-optional tag values), and the same tag used by two filters behind a variable filter and a coercion. These cases are tagged nt:tagged-regex-stream (whenever they executed; the regex table of each request lists every dataset string as a pattern, invalid ones as (<hex> 0)). Likewise appended: the DIRECTED recurse-from-strict-subtype worlds (same number; engine/recurse_subtype.rs; nt:recurse-from-strict-subtype): an edge e0 declared on interface I1 (implements I0) and inherited by T0 and T1, target = the super-interface I0 (implicit coercion to I1 at depth >= 2; every fourth world: target = I1 itself), @recurse(depth: 2|3) starting at a T0-typed vertex (entry point RT0, coercion ... on T0 from I1 / I0, inner vertex, inside @fold / @optional), data in which T0 vertices have T1 neighbours that have neighbours. Appended as well: the DIRECTED operand-type-matrix world (engine/operand_matrix.rs; nt:operand-type-matrix; quick 1 world, thorough 3 = all tag placements): over the fixed schema T0 {id:Int! n:Int s:String sn:String! f:Float b:Boolean li:[Int] ls:[String!] lsn:[String!]! lso:[String] lli:[[Int]] e0:[T0!]!} EVERY cell operator (all 20) x left property x right operand {variable, tag of each of the 11 properties on the same vertex / an earlier vertex / imported into a @fold} is written as a query (2398 cells), INCLUDING the cells that are ill-typed by the generator's rules, and compiled by the real frontend; rejected cells only count (extra.generator.operand_type_matrix: cells / accepted / rejected / kept per operator class x operand kind x well- or ill-typed), every accepted ill-typed cell is executed (nt:matrix-ill-typed-accepted: a frontend that accepts more than the typing rules allow is exercised), accepted well-typed cells are executed up to 96 per quick world (round-robin over the operators; thorough: all), over one dataset of 4..6 vertices with mostly non-null values from small pools so that the operators evaluate on operands of those types. Only queries accepted by the real frontend and by argument validation are executed; each (schema, dataset, query, args) is sent as (exec ...) [model = Interp over the rendered real IR] and (spec-exec ...) [model = declarative Spec over the generator's tree]. A case is non-trivial (nt:<feature>+rows) when the query uses at least one of fold / optional / recurse / tag / coercion AND the implementation returned at least one row on that dataset. Oracle here: implementation panics on accepted queries (keyed by panic site); the declarative comparison is done by ./check on the spec-exec answers."
     }
     fn generate(&self, tier: Tier, rng: &mut Rng) -> Vec<Case> {
         let (worlds, stats) = generate_worlds(rng, &WorldKnobs::for_tier(tier));
@@ -68,7 +68,7 @@ impl Prop for C01 {
     fn post_tags(&self, e: &Evaluated) -> Vec<String> {
         let mut t = nontrivial_tags(e);
         // directed family: the tagged regex filter saw a stream of contexts (whatever it let through)
-        for f in [engine::tagged_regex::FEATURE, engine::recurse_subtype::FEATURE] {
+        for f in [engine::tagged_regex::FEATURE, engine::recurse_subtype::FEATURE, engine::operand_matrix::FEATURE, engine::operand_matrix::ILL_TYPED] {
             if e.answer.starts_with("(rows") && e.tags.iter().any(|t| t == f) {
                 t.push(format!("nt:{f}"));
             }
@@ -437,7 +437,7 @@ impl Prop for C09 {
         "C09"
     }
     fn rule(&self) -> &'static str {
-        "the world generator of C01 with the wide query settings (QueryKnobs::wide): invalid regex arguments (1/3 of regex variables), ordering operators on list-typed operands (1/3), the same tag imported several times into one fold, fold-count filters inside optional scopes, besides everything C01 generates. Every accepted (schema, dataset, query, args) is sent as (exec ...). Oracle: any panic of the implementation on an accepted query + accepted arguments is a failure keyed by its panic site. Non-trivial (nt:<trigger>): the query contains one of the known-defect triggers or a fold / optional / recursion / tag."
+        "the world generator of C01 with the wide query settings (QueryKnobs::wide): invalid regex arguments (1/3 of regex variables), ordering operators on list-typed operands (1/3), the same tag imported several times into one fold, fold-count filters inside optional scopes, besides everything C01 generates (incl. its directed worlds). Appended as well: the DIRECTED operand-type-matrix world (engine/operand_matrix.rs; nt:operand-type-matrix; quick 1 world, thorough 3 = all tag placements): over the fixed schema T0 {id:Int! n:Int s:String sn:String! f:Float b:Boolean li:[Int] ls:[String!] lsn:[String!]! lso:[String] lli:[[Int]] e0:[T0!]!} EVERY cell operator (all 20) x left property x right operand {variable, tag of each of the 11 properties on the same vertex / an earlier vertex / imported into a @fold} is written as a query (2398 cells), INCLUDING the cells that are ill-typed by the generator's rules, and compiled by the real frontend; rejected cells only count (extra.generator.operand_type_matrix: cells / accepted / rejected / kept per operator class x operand kind x well- or ill-typed), every accepted ill-typed cell is executed (nt:matrix-ill-typed-accepted: a frontend that accepts more than the typing rules allow is exercised), accepted well-typed cells are executed up to 96 per quick world (round-robin over the operators; thorough: all), over one dataset of 4..6 vertices with mostly non-null values from small pools so that the operators evaluate on operands of those types. Every accepted (schema, dataset, query, args) is sent as (exec ...). Oracle: any panic of the implementation on an accepted query + accepted arguments is a failure keyed by its panic site. Non-trivial (nt:<trigger>): the query contains one of the known-defect triggers or a fold / optional / recursion / tag."
     }
     fn generate(&self, tier: Tier, rng: &mut Rng) -> Vec<Case> {
         let mut knobs = WorldKnobs::for_tier(tier);
@@ -468,7 +468,7 @@ impl Prop for C09 {
         panic_failures(evaluated)
     }
     fn post_tags(&self, e: &Evaluated) -> Vec<String> {
-        let mut t: Vec<String> = ["invalid-regex", "list-ordering-used", "dup-import", "count-filter-in-opt", "fold", "opt", "recurse", "tag-import", "count-tag"]
+        let mut t: Vec<String> = ["invalid-regex", "list-ordering-used", "dup-import", "count-filter-in-opt", "fold", "opt", "recurse", "tag-import", "count-tag", engine::operand_matrix::FEATURE, engine::operand_matrix::ILL_TYPED]
             .iter()
             .filter(|f| e.tags.iter().any(|t| t == *f))
             .map(|f| format!("nt:{f}"))
